@@ -93,7 +93,13 @@ def run_inputs(spec, scen, inputs, variant_rnd=None, write_concern=False):
                     cls.set_buffer_capacity(i["c"])
                 elif a == "exit":
                     ctx = stack.pop()
-                    ctx.__exit__(None, None, None)
+                    # a with-block may also be left by an exception of the user's code: the context
+                    # must behave the same (the exception itself is not the library's business)
+                    if variant_rnd is not None and variant_rnd.random() < 0.3:
+                        exc = KeyError("raised by the user's code inside the with-block")
+                        ctx.__exit__(KeyError, exc, None)
+                    else:
+                        ctx.__exit__(None, None, None)
                 elif a == "ext":
                     ext_file = i["r"]
                     res[i["r"]].write_raw(val.to_py(i["v"]))
